@@ -109,6 +109,10 @@ def abs_apply(a, st):
         return a.clone(elems=None, indexable=False, keys=False)
     if op == 'local_shuffle':
         return a.clone(elems=None, indexable=False, findexable=False, keys=False)
+    if op == 'cycle':
+        if not a.sized or not a.n:
+            return None
+        return a.clone(elems=None, n=None, sized=False, findexable=False)
     if op == 'apply':
         if not a.indexable or not a.sized:
             return None
@@ -282,6 +286,11 @@ def gen_desc(rng, *, max_n=8, min_n=0, max_up=3, max_down=2, par_kw=None,
             for _try in range(6):
                 sts = gen_upstream_stage(rng, a, 'u%d' % (j + 1),
                                          single or par['op'] == 'parmap')
+                for st in sts:
+                    # every concatenated / zipped partner gets its own id (and
+                    # key) range: duplicate keys are a loud refusal of keys()
+                    if st['op'] in ('concat', 'zip'):
+                        st['offset'] = 100 * (j + 1) + (50 if st['op'] == 'zip' else 0)
                 b = a
                 for st in sts:
                     b = abs_apply(b, st) if b is not None else None
